@@ -49,6 +49,9 @@ def cells(tier):
     for size in [1, 2]:
         sc = scen(pool(size), [[A("X", size)], [A("A", 2), cgroup("A"), A("B", 3)], [GAC]], outcomes=["ret"])
         out.append(cell(f"s{size} X{size}|A2,cgroupA,B3 (auto name re-used at once)|gac", sc, MON))
+    for form in ("view", "set"):
+        sc = scen(pool(2), [[A("A", 2, args=1 if form == "set" else 2, kwargs=1, argsform=form)], [A("B", 1)]], outcomes=["ret"])
+        out.append(cell(f"s2 A2 args given as a {form} (iterable, not a sequence)|B1", sc, MON))
     for size in [1, 2]:
         sc = scen(pool(size), [[A("A", 2, args=1, kwargs=1, partial=True, name="pg")], [A("B", 1)], [LOCK]], outcomes=["ret"])
         out.append(cell(f"s{size} A2 func=partial(k0 frozen) kwargs k0|B1 lock", sc, MON))
